@@ -309,7 +309,27 @@ def window_init(prog, res, f, rule="R-WINDOW"):
         obj = objs.pop()
 
         def zero(s, obj=obj):
-            return any(ir.ap(lv) == obj and op == "=" and ir.is_const(rhs, 0) for lv, op, rhs, w_ in ir.writes_of(s))
+            for lv, op, rhs, w_ in ir.writes_of(s):
+                if op != "=":
+                    continue
+                p_ = ir.ap(lv)
+                if p_ == obj and ir.is_const(rhs, 0):
+                    return True
+                # the enclosing local aggregate initialised as a whole: = {0} / = {.f = 0}
+                r0 = ir.strip(rhs) if isinstance(rhs, dict) else None
+                if p_ and obj.startswith(p_ + ".") and isinstance(r0, dict) and r0.get("k") == "init":
+                    fld = obj[len(p_) + 1:].split(".")[0]
+                    named = [e for e in r0.get("elts", []) if e.get("f") == fld]
+                    if all(ir.is_const(e["v"], 0) for e in named) and all("f" in e or ir.is_const(e.get("v"), 0) for e in r0.get("elts", [])):
+                        return True
+            for c in ir.calls_in(s):
+                if c.get("fn") == "memset" and len(c.get("args", [])) == 3 and ir.is_const(c["args"][1], 0):
+                    d = ir.strip(c["args"][0])
+                    if isinstance(d, dict) and d.get("k") == "addr":
+                        p_ = ir.ap(d["e"])
+                        if p_ and (obj == p_ or obj.startswith(p_ + ".")):
+                            return True
+            return False
         dsts = {(bid, i) for bid, i, c in calls}
         ok, wit = paths.all_paths_pass(w, "entry", dsts, zero)
         how = "zero-initialised in the worker before the first %s" % f.name
@@ -342,8 +362,10 @@ def pair_reader(prog, res, f, rule="PAIR"):
             return any(cc.get("fn") == "channel_read_unmap" and (ir.ap(cc["args"][0]), ir.ap(cc["args"][1])) == key
                        for cc in ir.calls_in(ss))
         others = {(b2, i2) for b2, i2, s2 in opens if (b2, i2) != (bid, i)}
-        ok, w = paths.all_paths_pass(f, (bid, i), "exit", closes)
-        ok2, w2 = paths.all_paths_pass(f, (bid, i), {(bid, i)} | others, closes) if True else (True, None)
+        closes_ip = paths.through_callees(prog, f, closes)
+        eok = paths.tested_call_discharge(prog, f, closes)
+        ok, w = paths.all_paths_pass(f, (bid, i), "exit", closes_ip, edge_ok=eok)
+        ok2, w2 = paths.all_paths_pass(f, (bid, i), {(bid, i)} | others, closes_ip, edge_ok=eok)
         n += 1
         inst = "%s: channel_read_map%s -> channel_read_unmap" % (f.name, key)
         if ok and ok2:
